@@ -200,8 +200,13 @@ pub fn make_spec(pool: &Pool, ix: &PoolIndex, seed: u64, kind: RunKind, allow_in
         }
     }
     let hot: Vec<u32> = if f3 {
-        let n = r.range(1, 3);
-        (0..n).map(|_| *r.pick(&ix.sensitive_exprs)).collect()
+        if !pool.sib_groups.is_empty() && r.chance(0.3) {
+            // near-duplicate expressions back to back and side by side
+            r.pick(&pool.sib_groups).clone()
+        } else {
+            let n = r.range(1, 3);
+            (0..n).map(|_| *r.pick(&ix.sensitive_exprs)).collect()
+        }
     } else {
         Vec::new()
     };
@@ -224,6 +229,7 @@ pub fn make_spec(pool: &Pool, ix: &PoolIndex, seed: u64, kind: RunKind, allow_in
     // a growing buffer) sees thousands of distinct calls; the hot-expression theme is mostly off there
     let focus: Option<Ev> = if total_calls_long > 0 && r.chance(0.5) { Some(*r.pick(&ALL_EV)) } else { None };
     let hot: Vec<u32> = if total_calls_long > 0 && r.chance(0.7) { Vec::new() } else { hot };
+    let time_scale: i64 = [10_000_000i64, 100_000_000, 1_000_000_000, 5_000_000_000, 30_000_000_000, 300_000_000_000, 3_600_000_000_000, 86_400_000_000_000][r.below(8)];
     let mut clients: Vec<Vec<u32>> = Vec::new();
     let mut churn: Vec<Vec<u32>> = Vec::new();
     let mut jumps: Vec<Vec<(u32, i64, i64)>> = Vec::new();
@@ -336,10 +342,17 @@ pub fn make_spec(pool: &Pool, ix: &PoolIndex, seed: u64, kind: RunKind, allow_in
         }
         let mut js: Vec<(u32, i64, i64)> = Vec::new();
         if f8 {
-            let n = if ncalls > 100 { r.range(1, 12) } else { r.range(0, 3) };
+            // a time scale per run; most jumps are a random 0.1x-3x of it, placed before a good share of the calls, so
+            // that state with a time-to-live near that scale is seen partially expired (some entries older than
+            // the limit, some younger), not only all-fresh or all-expired; a few jumps are huge
+            let n = if ncalls > 100 { r.range(4, 40) } else { (0..ncalls).filter(|_| r.chance(0.35)).count() };
             for _ in 0..n {
                 let k = r.below(ncalls) as u32;
-                let dm = [1_000i64, 1_000_000, 100_000_000, 1_000_000_000, 60_000_000_000, 3_600_000_000_000, 2_592_000_000_000_000][r.below(7)];
+                let dm = if r.chance(0.85) {
+                    ((time_scale as f64) * (0.1 + 2.9 * r.unit())) as i64
+                } else {
+                    [1_000i64, 3_600_000_000_000, 2_592_000_000_000_000][r.below(3)]
+                };
                 // the wall clock usually moves with the monotonic one, sometimes further, sometimes backwards (an NTP step)
                 let dr = match r.below(5) {
                     0 => -1_000_000_000,
